@@ -37,6 +37,8 @@ var c13Mods = []string{"default", "ifThen", "ifThenElse", "jsonEscape", "jsonQuo
 	"math::abs", "math::inc", "math::dec", "math::add", "math::sub", "math::mul", "math::div", "math::mod", "math::sqrt", "math::cbrt", "math::radical", "math::rad", "math::exp", "math::log",
 	"math::factorial", "math::fact", "math::max", "math::min", "math::pow", "def", "if", "ifel", "je", "jq", "he", "le", "ue", "ae", "ce", "jse", "roundp", "ceilp", "floorp"}
 
+var c13VCount int
+
 var c13ReCLoop = regexp.MustCompile(`for\s+\w+\s*:?=[^;%]*;`)
 
 var c13Helpers = []string{"lenEq0", "lenGt0", "lenGtq0"}
@@ -73,6 +75,13 @@ func panicSite(p string) string {
 }
 
 func init() {
+	dyntpl.RegisterModFn("vcount", "", func(ctx *dyntpl.Ctx, buf *any, val any, args []any) error {
+		c13VCount++
+		if c13VCount > 3000 {
+			panic("vcount: more than 3000 nested renders — include recursion is not stopped")
+		}
+		return nil
+	})
 	props["C13"] = func(r *Run) {
 		r.Rule = "(a) matrix: every registered built-in modifier (and alias) and condition helper x forms {v|m(), v|m(a), v|m(a,b), m(a,b), v|m(literal…)} x argument tuples from 38 values of every kind " +
 			"(nil, every int/uint/float edge incl. NaN/±Inf/huge/tiny, numeric and non-numeric strings, bytes, bools, times, pointers, slices, maps, structs): all singles, all pairs, sampled triples; " +
@@ -178,6 +187,9 @@ func init() {
 				"{% for i := 0; i < v; i++ %}x{% endfor %}", "{% for i := v; i < 3; i++ %}x{% endfor %}", "{% for k, x := range v %}{%= k %}{%= x %}{% endfor %}", "{% for _, x := range v.a.b %}{%= x %}{% endfor %}",
 				"{% switch v %}{% case 1 %}a{% case \"b\" %}b{% default %}d{% endswitch %}", "{% ctx x = v %}{%= x %}", "{% ctx x, ok = v.a %}{%= ok %}", "{% counter v++ %}{%= v %}", "{% counter c = 1 %}{% counter c+5 %}{%= c %}",
 				"{%= v.a.b.c %}", "{%= v[v] %}", "{% for i := 0; i < 2; i++ %}{%= v[i] %}{%= v[v] %}{%= v[nope].x %}{% endfor %}", "{%j= v %}{%hh= v %}{%f.2= v %}{%F.3= v %}{%qq= v %}",
+				// square brackets in odd places (the [i] substitution slices the path between them)
+				"{% for i := 0; i < 2; i++ %}{%= v]x[i %}{%= v[ %}{%= v] %}{%= v[][i] %}{%= [i]v %}{%= v[i %}{% endfor %}",
+				"{% for i := 0; i < 2; i++ %}{%= v|default(v][i) %}{% if v]a[i == 1 %}x{% endif %}{% ctx x = v][ %}{% endfor %}",
 				"{%= v == 1 ? v : v %}", "{% if lenEq0(v) %}e{% endif %}", "{% if nosuchhelper(v) %}e{% endif %}", "{% break %}", "{% continue %}", "{% lazybreak 3 %}", "{% for _, x := range v %}{% break 9 %}{% endfor %}"} {
 				if (strings.Contains(src, "i < v") && vals[i].Name == "maxint64") || (strings.Contains(src, "i := v") && vals[i].Name == "minint64") {
 					continue // a loop of 9e18 iterations is what the template asks for, not a hang inside dyntpl
@@ -185,8 +197,38 @@ func init() {
 				run("node", "tpl", src, []string{"v"}, []c13Val{vals[i]})
 			}
 		}
+		// templates that include each other (a cycle of two and of three): must end with an error as well
+		// (every template of the cycle calls the harness modifier vcount, which panics — recoverably — after 3000 calls:
+		// a legitimate render cannot nest deeper than the include limit, and an unbounded recursion would otherwise
+		// end in a fatal stack overflow of the whole process)
+		for _, cyc := range [][]string{{"x{%= v|vcount() %}{% include cycB %}", "y{%= v|vcount() %}{% include cycA %}"},
+			{"{%= v|vcount() %}{% include cycB %}", "{% for i := 0; i < 1; i++ %}{%= v|vcount() %}{% include cycC %}{% endfor %}", "z{%= v|vcount() %}{% . cycA %}"}} {
+			c13VCount = 0
+			okc := true
+			for i, body := range cyc {
+				tree, err, pan := parseSafe([]byte(body), true)
+				if err != nil || pan != "" {
+					okc = false
+					break
+				}
+				dyntpl.RegisterTplKey("cyc"+string(rune('A'+i)), tree)
+			}
+			if !okc {
+				continue
+			}
+			ctx := dyntpl.NewCtx()
+			ctx.SetStatic("v", 1)
+			res := renderWatch("cycA", ctx, 5*time.Second)
+			sig := "include-cycle tpl=" + strings.Join(cyc, " | ")
+			r.Count(sig, true)
+			if res.Timeout || res.Panic != "" || res.Err == nil {
+				r.Violate(sig+" "+res.ErrStr(), "templates including each other do not end with an error", map[string]any{"templates": cyc, "result": res.ErrStr(), "panic": res.Panic})
+			}
+			r.Dist["include-cycle:"+res.ErrStr()]++
+		}
 		// self-including templates: must end with an error, not exhaust the stack
-		for _, body := range []string{"a{% include selfinc %}b", "{% for i := 0; i < 2; i++ %}{% include selfinc %}{% endfor %}", "{% if v == 1 %}{% . selfinc %}{% endif %}"} {
+		for _, body := range []string{"a{%= v|vcount() %}{% include selfinc %}b", "{% for i := 0; i < 2; i++ %}{%= v|vcount() %}{% include selfinc %}{% endfor %}", "{%= v|vcount() %}{% if v == 1 %}{% . selfinc %}{% endif %}"} {
+			c13VCount = 0
 			tree, err, pan := parseSafe([]byte(body), true)
 			if err == nil && pan == "" {
 				dyntpl.RegisterTplKey("selfinc", tree)
